@@ -67,6 +67,12 @@ CHECKS.update({
          "Trusted: recording stream; layout description for section bounds.", "DESIGN.md §4 C20"),
 })
 
+CHECKS.update({
+ "C08": ("exploration", "sandboxed-worker fuzzing: crafted hazard corpus + exhaustive prefixes / single-byte substitutions + proptest structure-aware mutation (+ libFuzzer campaigns in the thorough tier); returns-oracle with budget rule from an independent walker",
+         "Hostile inputs are executed through a 13-call API battery (sync and async) in worker processes with an address-space limit and a fixed stack, so panics, aborts on allocation failure and stack overflows are observed and attributed to the in-flight input. One crafted input per hazard class x 4 codecs, every prefix and 7 substitutions per byte of 8-12 small valid archives, and tens of thousands of structure-aware mutations (varint fields and header fields -> boundary values with pointers re-computed, splices, truncations, section swaps). Inputs whose declared work exceeds the stated budget are skipped and counted. Search only; hangs are reported as inconclusive.",
+         "Trusted: the worker protocol (a death is attributed to the case in flight), harness/src/spec/reader.rs::declared_work for the budget rule.", "DESIGN.md §4 C08"),
+})
+
 PENDING_REASON = "check under construction in this framework (DESIGN.md §9 construction order); not yet claimed"
 
 def main():
